@@ -738,6 +738,10 @@ def run(ctx):
     if nsite < 3:
         raise Broken("C13.R7: only %d call sites pass the local address down" % nsite)
 
+    # ------------------------------------------------------------------ R10
+    r10 = ctx.rule("C13.R10", "an attempt that failed or timed out is dissolved before the next address is tried on the same descriptor")
+    check_attempt_dissolved(P, r10, nx)
+
     # ------------------------------------------------------------------ R8
     r8 = ctx.rule("C13.R8", "the resolver reports the number of addresses it handed out: the result never exceeds the caller's capacity")
     from .. import bounds as B
@@ -765,3 +769,95 @@ def run(ctx):
                          % qr.show(n["sub"]), loc=qr.loc(nid))
     if npos < 1:
         raise Broken("C13.R8: no successful return in xcm_dns_query_result")
+
+    # ------------------------------------------------------------------ R9
+    r9 = ctx.rule("C13.R9", "configured timeouts keep their fractional part: no floating-point value is implicitly truncated into a stored integer field")
+    check_no_float_truncation(P, r9)
+
+
+def check_no_float_truncation(P, rule):
+    """dns.timeout and tcp.connect_timeout are doubles from the attribute down to the timer.  An implicit conversion of a
+    floating-point value into an integer that is then STORED in a record (a field of integer type) silently changes the
+    configured value (0.5 s becomes 0, which the resolver reads as `use the default`).  Conversions into a struct
+    timespec/timeval (seconds and nanoseconds are split on purpose) and into local counters are not storage."""
+    from .. import anchors as A
+    own = set((A.load().get("//records") or {}).keys())
+    n = 0
+    for f in P.functions:
+        if not f.file.startswith(("libxcm/", "common/")):
+            continue
+        par = None
+        for nid, m in f.nodes.items():
+            if m["k"] != "cast" or not m.get("implicit") or m.get("ck") != "FloatingToIntegral":
+                continue
+            n += 1
+            par = par or f.parents()
+            p = par.get(nid)
+            while p is not None and f.nodes[p]["k"] in ("paren", "cast"):
+                p = par.get(p)
+            pn = f.nodes.get(p, {})
+            fld, rec = None, None
+            if pn.get("k") == "bin" and pn["op"] == "=" and f.sn(pn["l"])["k"] == "member":
+                fld, rec = f.sn(pn["l"]).get("field"), f.sn(pn["l"]).get("record")
+            elif pn.get("k") == "init" and pn.get("fields"):
+                idx = [i for i, e in enumerate(pn["elems"]) if e == nid or f.strip(e) == f.strip(nid)]
+                fld = pn["fields"][idx[0]] if idx and idx[0] < len(pn["fields"]) else None
+                rec = pn.get("record")
+            if rec not in own:
+                fld = None          # a field of somebody else's record (struct ares_options.tries is a count, not a stored time)
+            rule.instance("%s: (%s) %s" % (f.qname, m.get("t"), f.show(m["sub"])[:40]))
+            if fld is not None and fld not in ("tv_sec", "tv_nsec", "tv_usec"):
+                rule.violation("%s:float-truncated-into:%s" % (f.name, fld), "%s stores the floating-point value `%s` into the integer field %s: the fractional part of a configured "
+                               "time is lost (a timeout below one second becomes 0)" % (f.name, f.show(m["sub"])[:50], fld), loc=f.loc(nid))
+            else:
+                rule.ok("%s: conversion of `%s` is not a stored configuration value" % (f.qname, f.show(m["sub"])[:40]), "destination of the conversion")
+    if n < 2:
+        raise Broken("float-truncation: only %d floating-to-integer conversions found (timespec conversion expected)" % n)
+
+
+def check_attempt_dissolved(P, rule, nx):
+    """before the tracker starts the next attempt on a descriptor it dissolves the one in progress (connect() to an
+    AF_UNSPEC address): a socket left in SYN_SENT answers the next connect() with EALREADY, for ever"""
+    aborters = [g for g in P.fns_in(nx.file.split("/")[-1]) if g.file == nx.file and g.static and g is not nx and any(True for _ in g.calls("connect"))]
+    if len(aborters) != 1:
+        raise Broken("attempt-dissolved: the helper that dissolves an attempt was not identified (%s)" % [g.name for g in aborters])
+    ab = aborters[0]
+    nsite = 0
+    for F in sorted({g for g, c in P.callers().get(ab, [])}, key=lambda g: g.name):
+        if not any(True for _ in F.calls(nx.name)):
+            continue
+        rule.instance("%s: %s then %s" % (F.qname, ab.name, nx.name))
+        bad = []
+        cnt = [0]
+
+        class Dis(S.SeqRule):
+            max_depth = 2
+
+            def user0(s2, fn):
+                return (False, False)        # (abort helper entered, dissolving connect done)
+
+            def inline(s2, fn, nid, callee):
+                return callee is ab
+
+            def on_call(s2, fn, st, nid, callees, exts):
+                ent, dis = st.user
+                if ab in callees:
+                    return (True, dis)
+                if "connect" in exts and fn is ab:
+                    return (ent, True)
+                if nx in callees:
+                    cnt[0] += 1
+                    if ent and not dis and not bad:
+                        bad.append(nid)
+                    return (False, False)
+                return None
+        S.run(Dis(P), F)
+        nsite += cnt[0]
+        if bad:
+            rule.violation("%s:next-attempt-without-dissolving" % F.name, "%s can start the next attempt (%s) on a path through %s on which the attempt in progress was not "
+                           "dissolved: the descriptor stays in SYN_SENT and every later connect() on it fails with EALREADY although another address would accept"
+                           % (F.name, nx.name, ab.name), loc=F.loc(bad[0]))
+        else:
+            rule.ok("%s: the attempt in progress is dissolved on every path before %s" % (F.qname, nx.name), "path exploration with the helper inlined and out-parameter constants")
+    if nsite < 2:
+        raise Broken("attempt-dissolved: only %d next-attempt sites explored" % nsite)
